@@ -141,7 +141,7 @@ def check(run, prog):
             his.append(hi)
         if not ok_struct:
             continue
-        fcons = _freq_constraints(nchan)
+        fcons = _freq_constraints(nchan, delay=expected_delay(labels.expr.subs(labels.axes[0], 0), refq) * SR * Hz)
         for i in range(nchan):
             fi = labels.expr.subs(labels.axes[0], i)
             di = sp.floor(expected_delay(fi, refq) * SR * Hz + sp.Rational(1, 2))
@@ -294,8 +294,11 @@ def realign_concrete(ck, prog, f_inc, f_sd, dm):
     ck.run.floor("R3", "fixed-delay realignment cases decided", n_ok, 6)
 
 
-def _freq_constraints(nchan):
-    """All channel frequencies and the reference positive: CF > BW*nchan; N large enough to keep things in range."""
+def _freq_constraints(nchan, delay=None):
+    """All channel frequencies and the reference positive: CF > BW*nchan; N large enough to keep things in range.
+    delay: a term linear in the DM symbol (a dispersion delay in samples); when given, the DM value of each sample point is
+    chosen so that this delay is a non-integer of moderate size (|d| between 1/3 and 40 samples, either sign) whatever the
+    other symbols came out as - otherwise floor/ceil and clamping terms are only ever compared in their saturated regime."""
     def c(pt):
         pt = dict(pt)
         bw = pt.get(BW)
@@ -306,8 +309,23 @@ def _freq_constraints(nchan):
         elif CF in pt and SR in pt:
             pt[CF] = abs(pt[CF]) + pt[SR] * (nchan + 1)
         if DMv in pt:
-            # keep delays moderate: scale DM so that delays are O(1..50) samples
-            pt[DMv] = pt[DMv] * sp.Rational(1, 10**11) * pt.get(CF, 1) ** 2
+            done = False
+            if delay is not None:
+                try:
+                    env = dict(pt)
+                    env[DMv] = sp.Integer(1)
+                    coef = terms.evaluate(delay, env=env)
+                    coef = sp.Rational(coef.re.numerator, coef.re.denominator) if hasattr(coef, "re") else sp.nsimplify(coef)
+                    if coef != 0:
+                        raw = sp.Rational(pt[DMv])
+                        mag = sp.Rational(int(abs(raw.p)) % 119 + 1, 3) + sp.Rational(1, 7)          # 10/21 .. 40.1, never an integer
+                        pt[DMv] = (mag if raw >= 0 else -mag) / coef
+                        done = True
+                except Exception:
+                    done = False
+            if not done:
+                # keep delays moderate: scale DM so that delays are O(1..50) samples
+                pt[DMv] = pt[DMv] * sp.Rational(1, 10**11) * pt.get(CF, 1) ** 2
         if N in pt:
             pt[N] = abs(pt[N]) + 400
         return pt
